@@ -102,10 +102,11 @@ def addFromStr (b : Bank) (text : String) : Option Bank :=
         assocSet p.1 (String.ofList (strip (List.intercalate ['\n'] p.2))) ps) b.procs
     some { procs := procs, deps := deps }
 
-/-- `_add_procedure_dependencies`: depth-first closure; `fuel` bounds the number of calls -/
-def closure (deps : String → List String) : Nat → List String → List String → List String
-  | 0, _, seen => seen
-  | _, [], seen => seen
+/-- `_add_procedure_dependencies`: depth-first closure with an explicit work list.  `fuel` bounds the
+number of steps; `none` = fuel exhausted (never for the fuel `bundle` supplies, see `Props.C13`). -/
+def closure (deps : String → List String) : Nat → List String → List String → Option (List String)
+  | _, [], seen => some seen
+  | 0, _ :: _, _ => none
   | fuel + 1, n :: todo, seen =>
       if seen.contains n then closure deps fuel todo seen
       else closure deps fuel (deps n ++ todo) (seen ++ [n])
@@ -133,15 +134,20 @@ def substTags (repl : List Char) (text : List Char) : List Char :=
       else c :: go cs fuel
   go text (text.length + 1)
 
-/-- `get_procedure_and_dependencies` -/
-def bundle (b : Bank) (name : String) (storage : Int) : String :=
-  let all := closure (fun n => assocGet n [] b.deps) ((b.deps.map (fun d => d.2.length)).foldl (· + ·) 0 + b.deps.length + 4) [name] []
-  let others := sortStrings (all.filter (· != name))
-  let texts := (others ++ [name]).filterMap (fun n =>
-    match b.procs.find? (fun p => p.1 == n) with | some p => some p.2 | none => none)
-  let raw := "\n".intercalate texts
-  let repl := ": STRING" ++ (if storage == 32 then "" else "[" ++ toString storage ++ "]")
-  String.ofList (substTags repl.toList raw.toList)
+def closureFuel (b : Bank) : Nat :=
+  (b.deps.map (fun d => d.2.length)).foldl (· + ·) 0 + b.deps.length + 4
+
+/-- `get_procedure_and_dependencies`; `none` only if the closure ran out of fuel -/
+def bundle (b : Bank) (name : String) (storage : Int) : Option String :=
+  match closure (fun n => assocGet n [] b.deps) (closureFuel b) [name] [] with
+  | none => none
+  | some all =>
+    let others := sortStrings (all.filter (· != name))
+    let texts := (others ++ [name]).filterMap (fun n =>
+      match b.procs.find? (fun p => p.1 == n) with | some p => some p.2 | none => none)
+    let raw := "\n".intercalate texts
+    let repl := ": STRING" ++ (if storage == 32 then "" else "[" ++ toString storage ++ "]")
+    some (String.ofList (substTags repl.toList raw.toList))
 
 /-- the tail of `convert`: bundle the program with the library when dependencies are wanted -/
 def finish (lib : String) (program : String) (procname : String) (outputDeps : Bool) (storage : Int) :
@@ -152,7 +158,7 @@ def finish (lib : String) (program : String) (procname : String) (outputDeps : B
     | some b =>
       match addFromStr b program with
       | none => none
-      | some b' => some (bundle b' procname storage ++ "\n")
+      | some b' => (bundle b' procname storage).map (· ++ "\n")
   else some (program ++ "\n")
 
 end CocoVerif.Model.ProcBank
